@@ -2,7 +2,7 @@
 
 TIERS = {
     "configs": {
-        "quick": {"variants": 6, "runs_per_profile": 48, "budget_s": 85, "min_budget": 100},
+        "quick": {"variants": 8, "runs_per_profile": 40, "budget_s": 85, "min_budget": 100},
         "thorough": {"variants": 64, "runs_per_profile": 160, "budget_s": 560, "min_budget": 150},
     },
     "getter": {
